@@ -86,6 +86,7 @@ func (g *c39gen) out(sc *c39scope) lnode {
 	n := lnode{T: "out", K: g.marker}
 	if len(sc.vars) > 0 {
 		n.V = sc.vars[len(sc.vars)-1]
+		n.Exitn = g.r.Intn(4) == 0 // for an out node: print the variable through a sub-shell parameter
 	}
 	return n
 }
@@ -220,7 +221,11 @@ func c39Print(b *strings.Builder, nodes []lnode, ind string) {
 		b.WriteString(ind)
 		switch n.T {
 		case "out":
-			if n.V != "" {
+			if n.V != "" && n.Exitn {
+				// same text, but the parameter is a sub-shell: the command spends a long time between being
+				// started and having its parameters, which is where a cancellation can catch it
+				fmt.Fprintf(b, "out \"m%d-${ out $%s }\"", n.K, n.V)
+			} else if n.V != "" {
 				fmt.Fprintf(b, "out \"m%d-$%s\"", n.K, n.V)
 			} else {
 				fmt.Fprintf(b, "out m%d", n.K)
